@@ -19,8 +19,8 @@ CLAIMED = {
     },
     "C04": {
         "engine": "E1 syncorder",
-        "technique": "static analysis: per-file-class write -> fsync -> barrier obligations over MIR (dominance + strand joins), result-checked",
-        "text": "Decides the fsync obligations: for every file class each write is followed by a completed, result-checked fsync of that file before the barrier that depends on it (meta switch-over, WAL truncation, append return, create return). Removing any fsync makes an obligation underivable. Device semantics and drain-count arithmetic are assumed.",
+        "technique": "static analysis: per-file-class write -> fsync -> barrier obligations over MIR (dominance + strand joins), result-checked; post-meta ordering of destructive events; truncation-dominates-write rule for the WAL",
+        "text": "Decides the fsync obligations: for every file class each write is followed by a completed, result-checked fsync of that file before the barrier that depends on it (meta switch-over, WAL truncation, append return, create return). Removing any fsync makes an obligation underivable; a WAL blob is only written into an empty WAL file. Device semantics and drain-count arithmetic are assumed.",
         "design_ref": "DESIGN.md 4 (E1), 5 (C04)",
         "note": _NOTE,
     },
